@@ -2,4 +2,7 @@
 
 package all
 
-import _ "verif/harness/internal/props/c05"
+import (
+	_ "verif/harness/internal/props/c05"
+	_ "verif/harness/internal/props/c05/proxy"
+)
